@@ -68,6 +68,7 @@ class Params:
         self.call_bias = 0.0        # extra probability of a procedure call
         self.min_procs = 0
         self.probe_rate = 0.0       # debugger probes: PRINT "@@"; <exprs>
+        self.dead_code = 0.0        # unreachable statements after END
         for k, v in kw.items():
             if k == 'features':
                 self.features.update(v)
@@ -1609,6 +1610,13 @@ class Gen:
         need_end = bool(self.gosubs)
         if need_end or self.chance(0.3):
             top.append(A.End())
+            if self.p.dead_code and self.chance(self.p.dead_code):
+                # unreachable code (its literals and variables still exist
+                # at compile time)
+                for _ in range(self.i(1, 2)):
+                    top.append(self.print_stmt() if self.chance(0.7)
+                               else self.assign())
+                self.note('dead_code_after_end')
         for lbl, body in self.gosubs:
             top.append(A.LabelDef(lbl))
             top.extend(body)
